@@ -154,7 +154,7 @@ Enter(p) ==
                      /\ UNCHANGED calls
      IN
      IF g \in {"platform", "platreq"} THEN early(NoErr)
-     ELSE IF g = "requires" THEN early(Err("code", 206))
+     ELSE IF g \in {"requires", "requires2"} THEN early(Err("code", 206))
      ELSE IF g = "enum" /\ a.v # "one" THEN early(Err("code", 207))
      ELSE /\ calls' = [calls EXCEPT ![t] = @ + 1]
           /\ IF calls[t] + 1 >= MaxCalls
